@@ -102,8 +102,8 @@ fn witnesses() -> Vec<(&'static str, Vec<Tab>, Q, usize, usize)> {
     let t_kf1 = Tab { types: vec![Ty::Int, Ty::Str, Ty::Bool], parts: 1, rows: vec![
         vec![i(2), st(""), n.clone()], vec![i(2), n.clone(), V::B(true)], vec![n.clone(), n.clone(), n.clone()],
         vec![i(3), n.clone(), V::B(true)], vec![i(2), st("b"), V::B(true)]] };
-    // SELECT * FROM t0 a WHERE (a.c1 NOT IN (SELECT b.c1 FROM t0 b)) OR FALSE          SQL: no row
-    let kf1 = Q::Filter(E::Or(bx(E::InSub(true, bx(c0(1)), Box::new(Q::Project(vec![c0(1)], Box::new(Q::Table(0)))))), bx(E::Lit(V::B(false), Ty::Bool))), Box::new(Q::Table(0)));
+    // SELECT * FROM t0 a WHERE (a.c1 NOT IN (SELECT b.c1 FROM t0 b)) OR (a.c0 = 99)     SQL: no row
+    let kf1 = Q::Filter(E::Or(bx(E::InSub(true, bx(c0(1)), Box::new(Q::Project(vec![c0(1)], Box::new(Q::Table(0)))))), bx(E::Cmp("=", bx(c0(0)), bx(E::Lit(i(99), Ty::Int))))), Box::new(Q::Table(0)));
     let t_l = Tab { types: vec![Ty::Int, Ty::Int], parts: 1, rows: vec![vec![i(2), i(0)], vec![i(2), i(1)]] };
     let t_r = Tab { types: vec![Ty::Int, Ty::Int], parts: 1, rows: vec![vec![i(3), i(0)], vec![n.clone(), i(0)], vec![i(2), i(0)], vec![i(-1), i(0)]] };
     // (SELECT c0 FROM t0) EXCEPT ALL (SELECT c0 FROM t1)                                 SQL: {2}
